@@ -57,8 +57,11 @@ fn gen_ops(r: &mut Rng) -> Vec<Op> {
     };
     (0..n)
         .map(|_| {
-            let k = match r.below(6) {
-                0 => 0,
+            // (an operator takes as many operands as precede it: scn with a DeviceN space has 33 and more)
+            let k = match r.below(24) {
+                0..=3 => 0,
+                4 => 30 + r.usize_below(40),
+                5 => 200 + r.usize_below(400),
                 _ => r.usize_below(9),
             };
             Op { operator: operator(r), operands: (0..k).map(|_| gen::direct_object(r, &cfg, 0)).collect() }
